@@ -260,6 +260,26 @@ def checkHugepages (old : List Oci.HugepageLimit) (L : List Api.HugepageLimit)
   perKey ++ (if shape then [] else
     [{ sig := "C13:hugepages:frame:extra", why := "hugepages: unexpected, missing or duplicated entries in the result" }])
 
+/-- The propagation each applied (unmarked) entry effectively asks for, in list order: the LAST
+    propagation option of the entry, or — the query variable of `AdjustMounts` is declared outside
+    its loop — that of the nearest earlier applied entry that had one. -/
+def propRequests : Str → List Api.Mount → List Str
+  | _, [] => []
+  | prev, m :: r =>
+    if isMarked m.destination then propRequests prev r
+    else (m.propagationQuery prev) :: propRequests (m.propagationQuery prev) r
+
+/-- `Linux.RootfsPropagation` after a successful application, declaratively: `rshared` when some
+    applied mount asks for `rshared`; raised to `rslave` when some asks for `rslave` and the
+    original is neither `rshared` nor `rslave`; the original otherwise.  Never lowered, and
+    independent of the order of the entries that ask. -/
+def raiseRootfs (old : Str) (reqs : List Str) : Str :=
+  if reqs.contains (str "rshared") then str "rshared"
+  else if reqs.contains (str "rslave") && old != str "rshared" && old != str "rslave" then str "rslave"
+  else old
+
+def expectedRootfs (old : Str) (L : List Api.Mount) : Str := raiseRootfs old (propRequests [] L)
+
 /-- Everything the property says about a successful application, on the implementation's
     result `o`, given the original `s`, the adjustment `a` and which externals are configured
     (`hasInjector`; `blockio`/`rdt` = the resolver tables, `none` = not configured). -/
@@ -294,6 +314,9 @@ def checkAll (s : Oci.Spec) (a : Adjustment) (o : Oci.Spec) (hasInjector : Bool)
   (if a.mounts.any (fun m => !isMarked m.destination && m.options.any (fun x => x == str "rshared" || x == str "rslave"))
       || o.rootfsPropagation = s.rootfsPropagation then [] else
     [{ sig := "C13:rootfsPropagation:frame", why := "rootfsPropagation: changed although no mount asked for rshared/rslave" }]) ++
+  (if o.rootfsPropagation = expectedRootfs s.rootfsPropagation a.mounts then [] else
+    [{ sig := "C13:rootfsPropagation:value",
+       why := s!"rootfsPropagation: {showS o.rootfsPropagation} where the mounts applied to an original {showS s.rootfsPropagation} call for {showS (expectedRootfs s.rootfsPropagation a.mounts)}" }]) ++
   (if o.rlimits = s.rlimits ++ a.rlimits.map POSIXRlimit.toOCI then [] else
     [{ sig := "C13:rlimits:value", why := "rlimits: not the original list followed by the requested limits" }])
 
